@@ -118,17 +118,11 @@ PROPS = {
     "C06": dict(
         tables=[],
         determined=True,
-        technique="Lean 4: index invariant (bucket = exact ascending positions of its key) proved inductively for new/push/extend/from_vec/sort/value mutation, all key queries proved equal to the linear scan under the invariant; exhaustive operation histories with entries, results, every key query and the hash-index bucket dump (hook) compared after every operation",
-        level_text=("PARTIAL proof. Model: entries list + hash-index buckets (with a ghost key per bucket standing for the hash chain) and every Object operation written from index_map.rs / object/mod.rs, incl. the three removal iterators with 'consumed n then dropped'. "
-                    "Proved in Lean: the invariant Inv (bucket keys distinct; every bucket lists exactly the ascending positions of its key, representative first; every present key has a bucket) holds for the empty object and is preserved by "
-                    "push/push_entry, extend/from_iter, from_vec, sort (index rebuilt) and in-place value mutation, each with the refinement 'entries = the plain-list operation' and the result flag; under Inv every key-based query "
-                    "(contains_key, index_of, redundant_index_of, indexes_of, get/get_entries) equals the linear scan of the entries and never panics. "
-                    "Not yet proved (stated as C06_remaining_full): push_front, remove_at and the iterators built on it (remove, insert, insert_front, remove_unique). These are covered by correspondence: "
-                    "every history of length <= 3 (thorough 4) over 26 operations on 2 keys x 2 values, all length-2 (3) extensions of three duplicate-rich prefixes over 3 keys, and 60 (400) random histories of 300-1500 operations over 40-200 keys "
-                    "(several growth/rehash cycles), comparing after EVERY operation the result, the entries, every key query for every key of the universe and the bucket dump (cfg(json_syntax_verif) hook) with the model, plus a plain-Vec oracle."),
+        technique='Lean 4: index invariant (every bucket = the exact ascending positions of its key) proved preserved by EVERY mutating operation of the public API, each with its plain-list refinement, then lifted to every operation sequence by induction (C06_reachable); all key queries proved equal to the linear scan under the invariant; model tied to the code by exhaustive short and long random operation histories comparing results, entries, every key query and the hash-index bucket dump (cfg hook) after every operation',
+        level_text=('FULL proof on the model. Model: entries list + hash-index buckets (a ghost key per bucket stands for the hash chain; a lookup finds a bucket only through the chain AND the equality test on entries[rep].key, which is what makes a stale index observable) and every Object operation written from index_map.rs / object/mod.rs, including the three removal iterators (consumed or dropped half-way: Drop finishes). Invariant Inv: bucket keys pairwise distinct; every bucket lists exactly the ascending positions of its key, representative first; every present key has a bucket. Proved: Inv holds for the empty object and any from_vec, and is preserved — with no panic and with the stated plain-list refinement and result — by push/push_entry, push_front/push_entry_front (shift_up then insert), remove_at (Indexes::remove, bucket deletion, shift_down), remove(key), remove_unique, insert (overwrite first, remove later duplicates, return old+removed), insert_front, get_or_insert_with, extend/from_iter, sort (index rebuilt), value mutation; C06_reachable lifts this to every finite sequence of operations by induction; C06_queries: under Inv contains_key, index_of, redundant_index_of, indexes_of, get/get_entries equal the linear scan of the entries and never panic. Tie to /repo: every history of length <= 3 (thorough 4) over 26 operations on 2 keys x 2 values, extensions of duplicate-rich prefixes, and long random histories over 40-200 keys (growth/rehash cycles), comparing after EVERY operation the result, the entries, every key query for every key and the bucket dump (cfg(json_syntax_verif) hook) with the model, plus a plain-Vec oracle.'),
         level_note="Trusted: Lean kernel; hashbrown RawTable + ahash behave as a hash table for a deterministic hash of the key (ghost key abstraction); Rust's stable sort_by = List.mergeSort; model validated by correspondence incl. bucket dumps.",
         rule="request = one operation history; after every op: result, entries, key queries over the history's key universe, sorted bucket dump. Non-trivial = history creates duplicate keys or has > 2 ops; distinct request lines",
-        strength="partial: invariant + refinement proved for append-side ops and all queries; removal/front ops tested exhaustively on short histories",
+        strength='full on the model: invariant + plain-list refinement for every mutating operation, lifted to all operation sequences; all queries = linear scan; tie to the code by correspondence',
         trusted_base=COMMON_TRUST + ["hashbrown::raw::RawTable, ahash (hash table semantics)", "plain-Vec reference semantics in harness/src/obj.rs"],
         assumptions=["remove_unique on a duplicated key returns Err(Duplicate) AND removes all entries with that key (the iterator's Drop completes the removal); the documentation is silent, the list semantics follows `remove`"],
         timeout=3600,
